@@ -37,7 +37,7 @@ class PROP(c10.PROP):
             return w
         r = R.parse_run(impl)
         if r.get("direct", 0) != 0:
-            return "%d byte(s) reached the process's standard output directly, bypassing the output channel" % r["direct"]
+            return "%d byte(s) reached the standard output or standard error of the process directly, bypassing the output channel" % r["direct"]
         return None
 
     def nontrivial(self, case, impl):
